@@ -8,6 +8,8 @@ spec:     spec/Glob.tla       reference GlobMatch / RefMatches / RefFind over co
                               Find histories incl. the error path (a query that raises, then more queries)
           spec/GlobMemo.tla   histories of direct globs_to_re(list) calls within one process (patterns may
                               contain LF / blanks), interleaved with fresh FilesParagraph objects
+          spec/GlobFind.tla   lookups on ONE document whose Files fields are re-assigned in place between
+                              find_files_paragraph calls (negative control LookupMemo = seeded change C16-seedB)
           spec/TraceGlob.tla  trace validation with the reference operators on concrete code points
 binding:  (a) spec -> code: TLC emits one CASE line per pattern list (expected result for EVERY name up
               to the bound), one DOC line per document (expected paragraph index for every name) and
@@ -25,11 +27,12 @@ binding:  (a) spec -> code: TLC emits one CASE line per pattern list (expected r
               direct globs_to_re calls on joined / split variants of the same list are driven through the
               real code and the recorded histories are validated by TLC (TraceGlob); corrupted controls
               must be rejected.
-negative controls at specification level (each makes TLC report the named violation; quick re-runs the
-first, fifth and sixth, thorough all): Discipline="prefix" (re.match, the defect repaired by ae99ec4) and
+negative controls at specification level (each makes TLC report the named violation; thorough re-runs all,
+quick four of them): Discipline="prefix" (re.match, the defect repaired by ae99ec4) and
 DotAll=FALSE violate MatchesIffGlob, FindFirst=TRUE violates LastWins, StaleCache=TRUE and
 KeyBeforeTranslate=TRUE (seeded change C16-seedC) violate SameResult, MemoKeyJoined=TRUE with JoinSep =
-LF / blank / none (seeded change C16-seedD) violates OutFaithful.
+LF / blank / none (seeded change C16-seedD) violates OutFaithful, LookupMemo=TRUE violates FindIsLast
+(quick runs prefix, KeyBeforeTranslate, MemoKeyJoined/LF and LookupMemo).
 
 Domain decisions (read off copyright.py and the property's quantifier "patterns over literals, '*', '?',
 escapes and newlines"): the Files field is whitespace-separated, so a pattern that contains whitespace
@@ -57,7 +60,7 @@ from lts import LTS, skey, strip
 
 MANIFEST = dict(
     technique="TLA+ spec (Glob: recursive glob reference + regex-translation/alternation/anchor/match-discipline implementation layer; GlobCache: per-paragraph files_pattern cache machine incl. its error path; GlobMemo: process-wide histories of direct globs_to_re calls) model-checked by TLC over all pattern lists and names up to a bound; expected results for every (pattern list, name) and (document, name) emitted by TLC and replayed into FilesParagraph.matches / parsed paragraphs / find_files_paragraph; recorded histories validated by TLC (TraceGlob)",
-    text="TLC enumerates every list of <= 2 patterns of length <= 2 over {a, b, *, ?, backslash, LF} against every name up to length 2 (thorough, with '/' and '.' added: 1 pattern x <= 3 with names <= 4, 2 x <= 2 with names <= 3, and 2 x <= 3 with names <= 3 over the 5 symbols a * ? backslash LF) and checks that the model of globs_to_re + fullmatch agrees with the recursive glob reference, that exactly the ill-formed lists raise, and that the find loop returns the last matching paragraph of every document of <= 3 paragraphs; the re.match discipline (defect fixed by ae99ec4), a non-DOTALL dot, first-match-wins and a stale cache are rejected by TLC in every run. The expected results printed by TLC are replayed on the real code through create(), text parsing with multi-line Files fields, Files re-assignment (cache) and find_files_paragraph under literal concretizations chosen to hit re.escape and flags; random Unicode histories are validated by TLC against the reference. One paragraph object is also driven through error-path histories (a query that raised the format error, further queries, Files set to a legal value and back) from the closed cache model, and lists whose joined text coincides (['a\\nb'] vs ['a','b'], blank, no separator, '|') are translated in both orders within the process from the memo model; a cache key stored before translation and a memo keyed by the joined text are rejected by TLC.",
+    text="TLC enumerates every list of <= 2 patterns of length <= 2 over {a, b, *, ?, backslash, LF} against every name up to length 2 (thorough, with '/' and '.' added: 1 pattern x <= 3 with names <= 4, 2 x <= 2 with names <= 3, and 2 x <= 3 with names <= 3 over the 4 symbols a * ? backslash) and checks that the model of globs_to_re + fullmatch agrees with the recursive glob reference, that exactly the ill-formed lists raise, and that the find loop returns the last matching paragraph of every document of <= 3 paragraphs; the re.match discipline (defect fixed by ae99ec4), a non-DOTALL dot, first-match-wins and a stale cache are rejected by TLC in every run. The expected results printed by TLC are replayed on the real code through create(), text parsing with multi-line Files fields, Files re-assignment (cache) and find_files_paragraph under literal concretizations chosen to hit re.escape and flags; random Unicode histories are validated by TLC against the reference. One paragraph object is also driven through error-path histories (a query that raised the format error, further queries, Files set to a legal value and back) from the closed cache model, and lists whose joined text coincides (['a\\nb'] vs ['a','b'], blank, no separator, '|') are translated in both orders within the process from the memo model; a cache key stored before translation and a memo keyed by the joined text are rejected by TLC.",
     note="Small-scope: bounds above; concretization of literal symbols is sampled (seeded). Patterns containing whitespace (LF, blanks) are only reachable through globs_to_re(list) and are judged there (globs_to_re(ps).fullmatch(name)). Unspecified: lists with an empty pattern, the empty list, find on documents with an ill-formed paragraph (ValueError or last well-formed match). Trusted: TLC, the 1:1 renaming of literal code points, the projection (bool of matches(), identity index of the returned paragraph).",
     design="5 (C16)")
 
@@ -786,7 +789,7 @@ def run(ctx):
     rng = ctx.rng
     ctx.assumptions += [
         "bounded: every list of <= 2 patterns x <= 2 symbols x every name <= 2 over {a,b,*,?,\\,LF} (replayed cases and thorough: also '/' and '.')"
-        + ("" if quick else "; 1 x <= 3 x names <= 4; 2 x <= 2 x names <= 3; 2 x <= 3 x names <= 3 over {a,*,?,\\,LF}")
+        + ("" if quick else "; 1 x <= 3 x names <= 4; 2 x <= 2 x names <= 3; 2 x <= 3 x names <= 3 over {a,*,?,\\}")
         + "; documents of <= 3 Files paragraphs",
         "literal symbols are concretized by sampled injective renamings (regex metacharacters, non-ASCII, case pairs)",
         "patterns containing whitespace are judged through globs_to_re(list).fullmatch(name) (not representable in a Files field); "
@@ -860,7 +863,7 @@ def run(ctx):
         res = book_jobs(ctx, bigs + smalls, r1 + r2)
     t_tlc = time.time()
     ctx.extra["constants"] = {"alphabet": "a b / . * ? \\ LF (quick design check without '/' and '.', which are plain literals in the model)", "quick": "2 patterns x 2, names 2",
-                              "thorough": "a: 1x3/names 4; b: 2x2/names 3; c: 2x3/names 3 over a * ? \\ LF",
+                              "thorough": "a: 1x3/names 4; b: 2x2/names 3; c: 2x3/names 3 over a * ? \\",
                               "documents": "<= 3 paragraphs, <= 2 patterns, <= 3 (thorough 4) symbols"}
 
     stats = {}
